@@ -223,6 +223,8 @@ def build_ops(ctx, exe):
     for eid, es in (("0000000000", "0000"), ("0102030405", "0607"), ("0000000001", "0000"), ("0000000000", "8000")):
         enc.append("cvcwrap %s %s %s 020200070007 090900070007 %s %s" % (KEY, hx(b"BYCA0000"), hx(b"BYCA00000001"), eid, es))
     enc.append("cvcwrap %s %s %s 020200070007 020200070007 0000000000 0001" % ("22" * 48, hx(b"BYCA1000ab"), hx(b"BYCA1023")))
+    enc.append("cvcwrap %s %s %s 020200070007 090900070007 0000000000 0000" % (KEY, hx(b"BYCA00000000"), hx(b"BYCA00000001")))  # names at the upper bound
+    enc.append("cvcwrap %s %s %s 020200070007 090900070007 0000000000 0000" % (KEY, hx(b"BYCA0000"), hx(b"BYCA0001")))          # names at the lower bound
     enc.append("cvcwrap %s %s %s 020200070007 030100010001 0500000000 0000" % ("33" * 64, hx(b"BYCA0000"), hx(b"590082394654")))
     enc.append("cvcwrap %s %s %s 020200070007 030100010001 0500000000 0000" % ("44" * 24, hx(b"BYCA0000"), hx(b"590082394654")))
     sm = []
